@@ -182,9 +182,16 @@ func runC20(r *Run) {
 		// all request-cookie rewrites (in the handler or its visitor closures) happen before the protected continuation and use the Decryptor result or empty
 		var sites []callSite
 		funcs := append([]*ssa.Function{h}, anonFuncsDeep(h)...)
-		for _, f := range funcs {
-			sites = append(sites, callsMatching(f, false, isReqRewrite)...)
+		// … or in a helper of the package the handler hands the request header to, and that helper's closures
+		for _, hl := range helpersOf(h) {
+			funcs = append(funcs, hl)
+			funcs = append(funcs, anonFuncsDeep(hl)...)
 		}
+		withoutHelpers(func() { // each site is attributed to the one function that contains it
+			for _, f := range funcs {
+				sites = append(sites, callsMatching(f, false, isReqRewrite)...)
+			}
+		})
 		r.atLeast("request-cookie rewrite sites", len(sites), 2)
 		dec := map[*ssa.Function][]callSite{}
 		for _, f := range funcs {
